@@ -1009,6 +1009,7 @@ func genC12(r *Rng, n int, tier string) {
 		[]byte("ErrorMsg=Panel is busy serving another client\n"),
 		[]byte("ErrorMsg=Locked\nBSY\n"),
 		[]byte("ErrorMsg=no newline"),
+		[]byte("ErrorMsg=Max connections reached (limit=1), locked by IP=10.0.0.5\n"), // '=' inside the message text
 		[]byte("BSY\n"),
 		[]byte("list\n_model=SK_X\n"),
 		[]byte("nack\n"),
@@ -1047,6 +1048,11 @@ func genC12(r *Rng, n int, tier string) {
 		recs = append(recs, ndRec{cmd, []string{"end=300", "conn", "p6", "s500", "c"}})
 		recs = append(recs, ndRec{cmd, []string{"end=300", "conn", "p6", "c"}})
 	}
+	// the reconnecting client probes every new connection: three connections in a row, each probed and dropped
+	recs = append(recs, ndRec{"net.c12c", []string{"end=300",
+		"conn", "p6", ndW(ndFrame(ndAck)), "s30", "c",
+		"conn", "p6", ndW(ndFrame(ndAck)), "s30", "c",
+		"conn", "p6", ndW([]byte("RDY\n")), "s150"}})
 	_ = n
 	_ = r
 	ndEmitBatch(recs)
